@@ -315,6 +315,13 @@ func observeConstructed(c gx.Case, t gx.Tok, viol *[]hx.OracleViolation) {
 			}
 		}
 
+		// far more colours than vertices
+		if ok, kcol := graph.IsKColorable(g, n+1000); !ok {
+			fail("IsKColorable", "k=%d answers false", n+1000)
+		} else if msg := checkColouring(h, kcol, n+1000, false); msg != "" {
+			fail("IsKColorable", "k=%d colouring %s", n+1000, msg)
+		}
+
 		d, order := graph.Degeneracy(g)
 		if d != dgWant {
 			fail("Degeneracy", "value %d, minimum-degree peeling gives %d", d, dgWant)
